@@ -90,6 +90,7 @@ bool Parser::parseStatement(StatementSyntax*& stmt, StatementContext stmtCtx)
             if (peek(2).kind() == SyntaxKind::ColonToken)
                 return parseLabeledStatement_AtFirst(stmt, stmtCtx);
 
+            auto startTkIdx = curTkIdx_;
             Backtracker BT(this);
             if (!parseExpressionStatement(stmt)) {
                 BT.backtrack();
@@ -98,6 +99,7 @@ bool Parser::parseStatement(StatementSyntax*& stmt, StatementContext stmtCtx)
                             &Parser::parseDeclarationOrFunctionDefinition);
             }
             maybeAmbiguateStatement(stmt);
+            maybeAmbiguateStatementByDeclaration(stmt, startTkIdx);
             return true;
         }
 
@@ -412,6 +414,64 @@ void Parser::maybeAmbiguateStatement(StatementSyntax*& stmt)
     ambigStmt->exprStmt_ = exprStmt;
     auto declStmt = makeNode<DeclarationStatementSyntax>();
     declStmt->decl_ = varDecl;
+    ambigStmt->declStmt_ = declStmt;
+
+    diagReporter_.AmbiguousExpressionOrDeclarationStatement(ambigStmt);
+}
+
+void Parser::maybeAmbiguateStatementByDeclaration(StatementSyntax*& stmt,
+                                                  LexedTokens::IndexType startTkIdx)
+{
+    // Other than `x * y ;' and `x ( y ) ;', an expression-statement that starts as
+    // `x * ...' or `x ( ...' may be a declaration whose only specifier is a typedef-name,
+    // e.g., `x ( * y ) ( z ) ;' or `x * y = z ;': that is told by parsing it as one.
+    if (stmt->kind() != SyntaxKind::ExpressionStatement)
+        return;
+
+    PSY_ASSERT_2(willBacktrack(), return);
+    PSY_ASSERT_2(tree_->tokenAt(startTkIdx).kind() == SyntaxKind::IdentifierToken, return);
+
+    SyntaxKind stmtK;
+    switch (tree_->tokenAt(startTkIdx + 1).kind()) {
+        case SyntaxKind::AsteriskToken:
+            stmtK = SyntaxKind::AmbiguousMultiplicationOrPointerDeclaration;
+            break;
+        case SyntaxKind::OpenParenToken:
+            stmtK = SyntaxKind::AmbiguousCallOrVariableDeclaration;
+            break;
+        default:
+            return;
+    }
+
+    auto exprStmt = stmt->asExpressionStatement();
+    auto endTkIdx = curTkIdx_;
+    curTkIdx_ = startTkIdx;
+    StatementSyntax* parsedStmt = nullptr;
+    auto parsed = parseDeclarationStatement(
+                parsedStmt,
+                &Parser::parseDeclarationOrFunctionDefinition)
+            && curTkIdx_ == endTkIdx;
+    curTkIdx_ = endTkIdx;
+    if (!parsed)
+        return;
+
+    auto declStmt = parsedStmt->asDeclarationStatement();
+    if (!(declStmt
+            && declStmt->decl_
+            && declStmt->decl_->kind() == SyntaxKind::VariableAndOrFunctionDeclaration))
+        return;
+    auto varDecl = declStmt->decl_->asVariableAndOrFunctionDeclaration();
+    if (!(varDecl->specs_
+            && varDecl->specs_->value
+            && varDecl->specs_->value->kind() == SyntaxKind::TypedefName
+            && !varDecl->specs_->next
+            && varDecl->decltors_
+            && varDecl->decltors_->value))
+        return;
+
+    auto ambigStmt = makeNode<AmbiguousExpressionOrDeclarationStatementSyntax>(stmtK);
+    stmt = ambigStmt;
+    ambigStmt->exprStmt_ = exprStmt;
     ambigStmt->declStmt_ = declStmt;
 
     diagReporter_.AmbiguousExpressionOrDeclarationStatement(ambigStmt);
@@ -741,6 +801,7 @@ bool Parser::parseForStatement_AtFirst(StatementSyntax*& stmt,
             break;
 
         case SyntaxKind::IdentifierToken: {
+            auto startTkIdx = curTkIdx_;
             Backtracker BT(this);
             if (!parseExpressionStatement(forStmt->initStmt_)) {
                 BT.backtrack();
@@ -753,6 +814,7 @@ bool Parser::parseForStatement_AtFirst(StatementSyntax*& stmt,
                 return false;
             }
             maybeAmbiguateStatement(forStmt->initStmt_);
+            maybeAmbiguateStatementByDeclaration(forStmt->initStmt_, startTkIdx);
             break;
         }
 
